@@ -32,7 +32,7 @@ func NewComponents(spec specification.Components, cfg Config) (zero Components, 
 	for _, c := range spec.Schemas.List {
 		schema, ims, err := NewSchema(c.V, NamedComponenter{cs, c.Name}, cfg)
 		if err != nil {
-			return zero, nil, fmt.Errorf("new schema component: %w", err)
+			return zero, nil, fmt.Errorf("new schema component %q: %w", c.Name, err)
 		}
 		imports = append(imports, ims...)
 
